@@ -21,6 +21,13 @@ Parameters × histories (oracle only): Parameters (scalar, VectorParameter eleme
         non-integer, negative, 0, 1, tiny, huge, back to the old value, every numeric type), then the SAME object
         and a freshly built one are classified again: every finite claim is judged by the same finite-difference
         oracle with the CURRENT parameter values substituted.
+Element-wise vectors whose ELEMENTS DIFFER (correspondence + oracle): vector expressions built through the public API
+        from a recipe — element-wise `**`, `*`, `/`, `+`, `-` (both operand orders) with ARRAY / LIST operands of every
+        numeric type (per-element exponents such as `v ** [1., 3., 2.]`, `v ** [1., .5, 1.]`), hand-built operand vectors
+        and the user's own element lists — so that ONE element has a higher degree / is non-polynomial, at every
+        position (first … last), with uniform arithmetic and matmul wrappers on top, in every element-scanning
+        consumer (c @ v, v @ c, dot in both orders, quadratic_form, VectorSum / .sum(), norms, single elements), other
+        lengths and deep chains; a failing input records the recipe and is replayed through the same API calls.
 """
 from __future__ import annotations
 
@@ -990,6 +997,296 @@ def vector_operand_cover(rng):
     return out
 
 
+# ----------------------------------------------------------------------------- element-wise vectors with DIFFERING elements
+#
+# A vector expression is a list of unrelated scalar expressions: nothing forces its elements to have the same degree, or
+# to be polynomial together.  The family below builds such vectors through the public API the way a user does — as a
+# RECIPE (JSON: base vector, a list of element-wise steps with their operands, a consumer) that is interpreted by
+# `build_elementwise`, because which constructor / operator overload produced a vector is not visible in the built
+# tree (a replay from the serialised tree would hand-build every VectorExpression).
+
+
+def _ew_high(name, t, u):
+    """the element that differs from its neighbours, made from the element `t` it replaces (and a second variable `u`)"""
+    from optyx.core.expressions import UnaryOp
+    from optyx.core.functions import sin, exp
+
+    if name == "cube": return t ** 3
+    if name == "sq": return t * t
+    if name == "p2": return t ** 2
+    if name == "bilin": return t * u
+    if name == "p4": return (t + u) ** 4
+    if name == "sin": return sin(t)
+    if name == "exp": return exp(t)
+    if name == "abs": return UnaryOp(t, "abs")
+    if name == "inv": return 1.0 / t
+    if name == "t/u": return t / u
+    if name == "sqrt": return (t + 3.0) ** 0.5
+    if name == "t**u": return t ** u
+    if name == "var": return u
+    if name == "lin": return 2.0 * t + u
+    raise KeyError(name)
+
+
+EW_HIGH_POLY = ["cube", "sq", "p2", "bilin", "p4"]
+EW_HIGH_NONPOLY = ["sin", "exp", "abs", "inv", "t/u", "sqrt", "t**u"]
+EW_ARRAY_KINDS = ["f64", "f64", "f64", "list", "list", "list", "mixedlist", "i64", "f32", "strided"]
+
+
+def _ew_array(kind, vals):
+    """the numeric operand in the TYPE the user hands it over"""
+    if kind == "list":
+        return [float(v) for v in vals]
+    if kind == "mixedlist":      # python ints where the value is integral, floats elsewhere
+        return [int(v) if float(v).is_integer() and i % 2 == 0 else float(v) for i, v in enumerate(vals)]
+    if kind == "i64":
+        if all(float(v).is_integer() for v in vals):
+            return np.array([int(v) for v in vals])
+        return np.array(vals, dtype=float)
+    if kind == "f32":
+        return np.array(vals, dtype=np.float32)
+    if kind == "strided":
+        return np.array([t for v in vals for t in (float(v), 9.0)])[::2]
+    return np.array([float(v) for v in vals], dtype=float)
+
+
+def _ew_matrix(name, L):
+    if name == "A":
+        return np.array([[(i + 1.0) - 0.5 * j for j in range(L)] for i in range(L)])
+    if name == "B":
+        return np.array([[1.0 if i == j else (0.5 if j == i + 1 else 0.0) for j in range(L)] for i in range(L)])
+    if name == "A2":
+        return np.array([[1.0 + j for j in range(L)], [2.0 - j for j in range(L)]])
+    if name == "A1":
+        return np.array([[2.0] + [0.5] * (L - 1)])
+    if name == "I":
+        return np.eye(L)
+    if name == "P":           # reversal: row i picks element L-1-i
+        return np.eye(L)[::-1].copy()
+    raise KeyError(name)
+
+
+def _ew_base(name, U):
+    from optyx.core import vectors as V
+    from optyx.core import matrices as M
+
+    n, x, y = U.n, U.x, U.y
+    if name == "x": return x
+    if name == "x[::-1]": return x[::-1]
+    if name == "w[1:n+1]": return U.w[1:n + 1]
+    if name == "2x+1": return 2.0 * x + 1.0
+    if name == "x+1": return x + 1.0
+    if name == "x-y": return x - y
+    if name == "-x": return -x
+    if name == "1-x": return 1.0 - x
+    if name == "x/2": return x / 2.0
+    if name == "x*y": return x * y
+    if name == "x**2": return x ** 2                      # ElementwisePower
+    if name == "(x+1)**2": return (x + 1.0) ** 2
+    if name == "A@x": return M.matmul(_ew_matrix("A", n), x)
+    if name == "hand": return V.VectorExpression([2.0 * v + 1.0 for v in x])
+    if name == "handvars": return V.VectorExpression(list(x))
+    raise KeyError(name)
+
+
+EW_BASES = ["x", "x[::-1]", "w[1:n+1]", "2x+1", "2x+1", "x+1", "x-y", "x-y", "-x", "1-x", "x/2", "x*y", "x**2", "(x+1)**2", "A@x", "hand", "handvars"]
+
+
+def _ew_operand(spec, U, L):
+    from optyx.core.expressions import Constant
+    from optyx.core import vectors as V
+
+    kind = spec[0]
+    if kind == "num":
+        return spec[1]
+    if kind == "arr":
+        return _ew_array(spec[1], spec[2])
+    if kind == "vec":
+        nm = spec[1]
+        y = U.y
+        return {"y": lambda: y, "x": lambda: U.x, "w": lambda: U.w[0:L], "y[::-1]": lambda: y[::-1], "2y": lambda: 2.0 * y,
+                "y+1": lambda: y + 1.0, "y**2": lambda: y ** 2, "-y": lambda: -y}[nm]()
+    if kind == "constvec":       # a hand-built vector of Constant nodes
+        return V.VectorExpression([Constant(v) for v in spec[1]])
+    if kind == "handvec":        # Constant(plain) everywhere, one element of another class at `pos`
+        _, pos, H, plain = spec
+        el = [Constant(plain) for _ in range(L)]
+        el[pos] = _ew_high(H, U.y[pos % U.n], U.x[pos % U.n])
+        return V.VectorExpression(el)
+    if kind == "handlin":        # linear elements everywhere, one element of another class at `pos`
+        _, pos, H = spec
+        el = [1.5 * U.y[i % U.n] - 1.0 for i in range(L)]
+        el[pos] = _ew_high(H, U.y[pos % U.n], U.x[pos % U.n])
+        return V.VectorExpression(el)
+    raise KeyError(kind)
+
+
+def _ew_step(v, step, U):
+    from optyx.core import vectors as V
+    from optyx.core import matrices as M
+
+    op = step[0]
+    L = len(v)
+    if op == "neg":
+        return -v
+    if op == "hand":             # the user's own list: one element replaced by an expression of another class
+        _, pos, H = step
+        el = list(v)
+        el[pos] = _ew_high(H, el[pos], U.y[pos % U.n])
+        return V.VectorExpression(el)
+    if op == "matmul":
+        return M.matmul(_ew_matrix(step[1], L), v)
+    if op == "ndarray@":
+        return _ew_matrix(step[1], L) @ v
+    o = _ew_operand(step[1], U, L)
+    if op == "+": return v + o
+    if op == "r+": return o + v
+    if op == "-": return v - o
+    if op == "r-": return o - v
+    if op == "*": return v * o
+    if op == "r*": return o * v
+    if op == "/": return v / o
+    if op == "r/": return o / v
+    if op == "**": return v ** o
+    if op == "r**": return o ** v
+    raise KeyError(op)
+
+
+def elementwise_vector(recipe, U):
+    v = _ew_base(recipe["base"], U)
+    for step in recipe["steps"]:
+        v = _ew_step(v, step, U)
+    if not hasattr(v, "__len__") or not (hasattr(v, "_expressions") or hasattr(v, "_variables")):
+        raise TypeError("not a vector")
+    return v
+
+
+def build_elementwise(recipe):
+    """the scalar expression of a recipe, built on fresh modelling objects through the public API"""
+    from optyx.core.expressions import BinaryOp, Constant
+
+    U = gen.Universe(core.Rng(0), nvec=int(recipe["n"]))
+    mk = lambda: elementwise_vector(recipe, U)
+    L = len(mk())
+    e = dict(_positions(U, mk, L, U.scalars[0]))[recipe["consumer"]]()
+    for i in range(int(recipe.get("chain") or 0)):
+        e = BinaryOp(e, Constant(float(i % 2)), "+") if i % 3 else BinaryOp(U.scalars[0], e, "-")
+    return e
+
+
+EW_CONSUMERS = ["LC", "c@v", "v@c", "DotSelf", "Dot(v,v')", "Dot(v,x)", "Dot(x,v)", "x.dot(v)", "v.dot(x)", "v@x", "QF", "VectorSum", ".sum()",
+                "vector_sum", "L2", "L1", "elem0", "elemLast", "2*LC+x", "QF**2", "-Dot/2"]
+
+EW_CORE_CONSUMERS = ["c@v", "v@c", "DotSelf", "Dot(v,x)", "Dot(x,v)", "QF", "VectorSum", ".sum()", "2*LC+x"]
+
+# uniform arithmetic on top of the vector whose elements differ (every element gets the same operation)
+EW_POSTS = [[], [], [], [["neg"]], [["+", ["num", 1.0]]], [["*", ["num", 2.0]]], [["r*", ["num", -3]]], [["-", ["vec", "y"]]], [["r-", ["num", 1.0]]],
+            [["/", ["num", 2.0]]], [["**", ["num", 1]]], [["neg"], ["+", ["num", 1]]], [["+", ["vec", "2y"]]], [["r+", ["vec", "y"]]],
+            [["*", ["num", 0.5]], ["-", ["num", 1.0]]], [["**", ["num", 2]]], [["*", ["vec", "y"]]]]
+EW_WRAPS = [[], [], [], [], [["matmul", "A"]], [["matmul", "A"]], [["matmul", "A2"]], [["matmul", "B"], ["matmul", "A"]], [["matmul", "P"]],
+            [["matmul", "A1"]], [["ndarray@", "A"]], [["matmul", "I"]]]
+EW_POSTS2 = [[], [], [], [["neg"]], [["+", ["num", 1.0]]], [["r*", ["num", 2.0]]], [["neg"], ["+", ["num", 1.0]]]]
+
+# (plain value, value at the special position) of an array of per-element exponents
+EW_EXPONENT_PAIRS = [(1.0, 3.0), (1.0, 2.0), (2.0, 3.0), (0.0, 2.0), (0.0, 1.0), (1.0, 0.5), (2.0, 0.5), (0.0, 0.5), (1.0, -1.0), (2.0, -2.0),
+                     (1.0, 2.5), (3.0, 7.0), (1.0, 4.0), (2.0, 1.5)]
+
+
+def elementwise_specials(n, pos, rng):
+    """(name, step) — every way ONE step makes the element at `pos` differ in degree / polynomiality from the others"""
+    def arr(plain, special):
+        a = [plain] * n
+        a[pos] = special
+        return a
+
+    def ramp(vals):            # all different (as far as there are values), the largest at `pos`
+        vals = sorted((vals * n)[:n])
+        top = vals.pop()
+        rng.shuffle(vals)
+        return vals[:pos] + [top] + vals[pos:]
+
+    kind = lambda: rng.choice(EW_ARRAY_KINDS)
+    out = []
+    for plain, sp in EW_EXPONENT_PAIRS:
+        out.append((f"**arr[{plain:g}|{sp:g}]", ["**", ["arr", kind(), arr(plain, sp)]]))
+    out.append(("**arr-ramp", ["**", ["arr", kind(), ramp([1.0, 2.0, 3.0, 4.0, 5.0])]]))
+    out.append(("**arr-ramp-frac", ["**", ["arr", kind(), ramp([0.5, 1.0, 2.0, 1.5])]]))
+    out.append(("**arr-ramp-neg", ["**", ["arr", kind(), [-v for v in ramp([0.0, 1.0, 2.0])]]]))
+    for plain, sp in [(1.0, 3.0), (2, 3), (1.0, 0.5), (1, -1)]:
+        out.append((f"**constvec[{plain:g}|{sp:g}]", ["**", ["constvec", arr(plain, sp)]]))
+    out.append(("**vec-y", ["**", ["vec", "y"]]))
+    out.append(("r**arr", ["r**", ["arr", kind(), arr(2.0, 3.0)]]))
+    for op in ("*", "r*"):
+        for plain, sp in [(0.0, 1.0), (1.0, 0.0), (2.0, -1.0)]:
+            out.append((f"{op}arr[{plain:g}|{sp:g}]", [op, ["arr", kind(), arr(plain, sp)]]))
+    out.append(("*arr-ramp", ["*", ["arr", kind(), ramp([0.0, 1.0, 2.0])]]))
+    for op, pairs in (("/", [(1.0, 2.0), (1.0, 4.0), (2.0, -0.5)]), ("r/", [(0.0, 1.0), (1.0, 2.0)]),
+                      ("+", [(0.0, 1.0)]), ("r+", [(1.0, -2.0)]), ("-", [(0.0, 1.0)]), ("r-", [(0.0, 1.0), (1.0, -2.0)])):
+        for plain, sp in pairs:
+            out.append((f"{op}arr[{plain:g}|{sp:g}]", [op, ["arr", kind(), arr(plain, sp)]]))
+    # a hand-built vector operand: constants (or linear terms) everywhere, one element of another class
+    for op, plain, Hs in (("*", 1.0, ["cube", "bilin", "sin", "inv", "var", "p2"]), ("*", 0.0, ["sq", "exp"]), ("r*", 2.0, ["cube", "sin", "var"]),
+                          ("/", 2.0, ["var", "cube", "lin"]), ("r/", 1.0, ["var"]), ("+", 0.0, ["cube", "sin", "sq", "inv", "sqrt", "p4"]),
+                          ("-", 1.0, ["p2", "abs", "t/u"]), ("r-", 0.0, ["cube", "sin", "t**u"]), ("r+", 1.0, ["bilin", "exp"])):
+        for H in Hs:
+            out.append((f"{op}handvec[{plain:g}|{H}]", [op, ["handvec", pos, H, plain]]))
+    for op, Hs in (("+", ["cube", "sin", "bilin"]), ("-", ["sq", "inv"]), ("*", ["var", "sin"]), ("r-", ["p2", "sqrt"])):
+        for H in Hs:
+            out.append((f"{op}handlin[{H}]", [op, ["handlin", pos, H]]))
+    # the user's own list of elements
+    for H in EW_HIGH_POLY + EW_HIGH_NONPOLY:
+        out.append((f"hand[{H}]", ["hand", pos, H]))
+    return out
+
+
+def ew_case(tag, recipe):
+    def make():
+        return build_elementwise(recipe)
+    make.recipe = recipe
+    return (tag, make)
+
+
+def elementwise_cover(rng, extra=600):
+    """vector expressions whose ELEMENTS DIFFER from one another in degree / polynomiality: every way one element-wise
+    step produces such a vector (array / list operands of `**`, `*`, `/`, `+`, `-` in both operand orders, hand-built
+    operand vectors, the user's own element lists) × the position of the odd element (first … last) × every
+    element-scanning consumer; the base vector, the uniform arithmetic applied on top, the matmul wrappers and the
+    numeric type of the array drawn per case; other vector lengths, two special steps, and deep chains on top."""
+    out = []
+
+    def recipe_for(n, special_steps, consumer, chain=0):
+        return {"n": n, "base": rng.choice(EW_BASES), "steps": list(special_steps) + rng.choice(EW_POSTS) + rng.choice(EW_WRAPS) + rng.choice(EW_POSTS2),
+                "consumer": consumer, **({"chain": chain} if chain else {})}
+
+    def add(tag, r):
+        case = ew_case(tag, r)
+        if _builds(case[1]):
+            out.append(case)
+            return True
+        return False
+
+    n = 3
+    for pos in range(n):
+        for sname, step in elementwise_specials(n, pos, rng):
+            # the nodes with an element loop of their own in every spelling; three of the remaining spellings per step
+            for cname in EW_CORE_CONSUMERS + rng.sample([c for c in EW_CONSUMERS if c not in EW_CORE_CONSUMERS], 3):
+                for _ in range(3):       # another base / post / wrap when the API refuses this combination
+                    if add(f"elementwise:{sname}@{pos}:{cname}", recipe_for(n, [step], cname)):
+                        break
+    # other lengths (1, 2, 4, 5, 8), two special steps at different positions, deep chains
+    for i in range(extra):
+        n = rng.choice([1, 2, 2, 4, 4, 5, 8, 3])
+        pos = rng.choice([0, n - 1, n // 2, rng.randint(0, n - 1)])
+        sp = elementwise_specials(n, pos, rng)
+        steps = [rng.choice(sp)[1]]
+        if rng.random() < 0.4:
+            steps.append(rng.choice(elementwise_specials(n, rng.randint(0, n - 1), rng))[1])
+        chain = rng.choice([399, 401, 450]) if i % 20 == 0 else 0
+        cname = rng.choice(EW_CONSUMERS[:16])
+        add(("chainelementwise:450:" if chain else "elementwise:") + f"n={n}:{'+'.join(s[0] for s in steps)}@{pos}:{cname}", recipe_for(n, steps, cname, chain))
+    return out
+
+
 def chain_cases(rng, thorough):
     """deep chains around the 400 switch and the 500 cut-off of the depth estimate"""
     from optyx.core.expressions import BinaryOp, Constant, UnaryOp
@@ -1595,6 +1892,7 @@ def check_cases(cases, rep, rng, thorough, T_choices=(400, 0, 3)):
             continue
         e = o["e"]
         o["tag"], o["T"] = tag, T
+        o["recipe"] = getattr(make, "recipe", None)
         try:
             s = Ser04(ids).expr(e)
             unsupported = None
@@ -1640,6 +1938,8 @@ def check_cases(cases, rep, rng, thorough, T_choices=(400, 0, 3)):
         if o["pre"]:
             rep.histogram["history:sub-node slots populated first"] = rep.histogram.get("history:sub-node slots populated first", 0) + 1
         hist = {"pre": o["pre"], "pre_T": o["pre_T"]} if o["pre"] else {}
+        if o.get("recipe") is not None:      # how the expression was built through the API (the replay builds it the same way)
+            hist["recipe"] = o["recipe"]
         impl_line = obs_line(o)
         # internal consistency of the real code: whichever traversal, first and later reads
         seen = [o["iter"], o["compute"], o["reads"][0], o["reads"][1]] + ([o["rec"]] if o["rec"] is not None else [])
@@ -1690,11 +1990,15 @@ def run(ctx) -> core.Report:
                            "two MatrixVectorProducts) × every vector-operand position, coefficient magnitudes (0, denormals, ±1e-300 … ±1e16) "
                            "in every coefficient position over high-degree / non-polynomial elements, deep chains around the 400 "
                            "switch and the 500 depth cut-off, seeded random trees biased to the polynomial fragment; "
+                           "element-wise vectors whose elements differ in degree / polynomiality (array / list operands of ** * / + - in both "
+                           "orders, hand-built operands and element lists; the odd element at every position; uniform arithmetic and matmul "
+                           "on top) in every element-scanning consumer, built and replayed from API recipes; "
                            "Parameters in every position (exponent, coefficient, divisor, base, additive; scalar and VectorParameter "
                            "elements; shallow, in vector nodes, in deep chains) × histories classify → Parameter.set → classify the "
                            "same and a fresh object through every channel, judged for the current parameter values; "
                            "thresholds 400 / 0 / 3 / 10^9; non-trivial = distinct expressions with a finite degree")
     cases = list(cell_cover(rng)) + vector_operand_cover(rng) + magnitude_cover(rng) + typed_coef_cover(rng) + shared_cover(rng) + chain_cases(rng, thorough)
+    cases += elementwise_cover(rng, extra=3000 if thorough else 600)
     n_rand = 40000 if thorough else 4000
     for i in range(n_rand):
         U = gen.Universe(rng)
@@ -1765,6 +2069,7 @@ def search(ctx, rep):
     if prep.oracle_failures:
         return prep.oracle_failures[0]
     pool += [(t, m) for t, m in cell_cover(rng)] + vector_operand_cover(rng) + magnitude_cover(rng) + typed_coef_cover(rng) + shared_cover(rng) + chain_cases(rng, False)
+    pool += elementwise_cover(rng, extra=6000)
     for i in range(30000):
         U = gen.Universe(rng)
         depth = rng.randint(1, 6)
@@ -1804,6 +2109,8 @@ def search(ctx, rep):
                     r.update({"expr": ser(e), "tag": tag, "degree": d, "T": T, "pre": pre_idx, "pre_T": 400})
                 except Unsupported:
                     r.update({"expr": None, "tag": tag, "degree": d, "T": T})
+                if getattr(make, "recipe", None) is not None:
+                    r["recipe"] = make.recipe
                 return r
     return None
 
@@ -1814,19 +2121,28 @@ def replay(payload) -> bool:
     f = payload["failure"]
     if f.get("family") == "param-history":
         return replay_param_history(f)
-    if not f.get("expr"):
+    if not f.get("expr") and not f.get("recipe"):
         print("no serialised expression in the replay file; tag:", f.get("tag"))
         return True
     ok = True
+    # an expression built from a recipe is rebuilt through the same API calls (the operator overload / constructor that
+    # made a vector is not part of the serialised tree); the serialised tree is replayed as well
+    builders = []
+    if f.get("recipe"):
+        print("recipe:", f["recipe"])
+        builders.append(("built through the API from the recipe", lambda: build_elementwise(f["recipe"])))
+    if f.get("expr"):
+        builders.append(("rebuilt from the serialised tree", lambda: deser(f["expr"])))
     # histories: none, the recorded one, and "every sub-expression object was queried first" (covers the
     # cases whose generator reads a term's degree before reusing it)
     histories = [("no history", None)]
     if f.get("pre"):
         histories.append(("recorded history", (list(f["pre"]), int(f.get("pre_T") or 400))))
     histories.append(("all sub-nodes queried first", ("all", 400)))
-    for hname, h in histories:
+    for bname, build, hname, h in [(bn, b, hn, h) for bn, b in builders for hn, h in histories]:
+        hname = f"{bname}; {hname}" if len(builders) > 1 else hname
         for T in sorted({int(f.get("T", 400)), 0, 400, 10 ** 9}):
-            e = deser(f["expr"])
+            e = build()
             if h is not None:
                 idxs = list(range(len(subnodes(e)))) if h[0] == "all" else h[0]
                 prequery(e, idxs, h[1])
